@@ -21,6 +21,7 @@ func c11(tier string) int {
 	plans := []seq.Plan{
 		{Family: "grpc-kv-len", From: 1, To: 2},
 		{Family: "grpc-kv", Params: "keys=2", From: 1, To: 3},
+		{Family: "grpc-kv-keys", From: 1, To: 2},
 		{Family: "grpc-iso", Params: "keys=1,slots=2,gc=0,deflevel=1", From: 1, To: 4},
 		{Family: "grpc-late", Params: "slots=1,levels=RC.RR,nolatewrites=1", From: 1, To: 4},
 	}
@@ -28,6 +29,7 @@ func c11(tier string) int {
 		plans = []seq.Plan{
 			{Family: "grpc-kv-len", From: 1, To: 3},
 			{Family: "grpc-kv", Params: "keys=3", From: 1, To: 4},
+			{Family: "grpc-kv-keys", From: 1, To: 3},
 			{Family: "grpc-iso", Params: "keys=2,slots=2,gc=0,deflevel=1", From: 1, To: 5},
 			{Family: "grpc-late", Params: "slots=2,nolatewrites=1", From: 1, To: 5},
 		}
